@@ -493,6 +493,17 @@ def apiSendData (n : Node) (cid dest tag : Nat) : Node × List (Out B) :=
     | none => (n, [])
   | none => (n, [])
 
+/-- an originator that does not follow send_extend: it sends an EXTEND of its own making over its circuit (any public
+    key, any address - the address is not part of the model's message: where the CREATE goes is read back).  Nothing
+    changes at the originator (no retry cache is created). -/
+def apiSendExtend (n : Node) (cid ident pk : Nat) : Node × List (Out B) :=
+  match get n.circuits cid with
+  | some circ =>
+    match circ.firstHop with
+    | some fh => sendMsg A n fh.addr cid (.extend ident pk 0)
+    | none => (n, [])
+  | none => (n, [])
+
 /-- TunnelExitSocket.tunnel_data: a datagram from outside arrives at exit socket `cid` -/
 def apiTunnelData (n : Node) (cid org tag : Nat) : Node × List (Out B) :=
   match get n.exits cid with
@@ -585,6 +596,20 @@ def expireRetry (n : Node) (cid : Nat) (ch : Choice) : Node × List (Out B) :=
           sendMsg A { n with circuits := set n.circuits cid circ1, nextKey := n.nextKey + 1 } fh.addr cid (.extend ident pk dh)
 
 end
+
+/-! ### HiddenTunnelCommunity.on_establish_intro: `intro_point_for` is keyed by the seeder key alone; a registration
+    belongs to the exit socket it arrived on.  Kept apart from `Node` (not part of the correspondence run): the
+    registrations are a list of (seeder key, exit socket id, info hash). -/
+def onEstablishIntro (n : Node) (intros : List (Nat × Nat × Nat)) (cid pk infoHash : Nat) : List (Nat × Nat × Nat) :=
+  if intros.any (fun r => r.1 == pk) then intros          -- "Already have an introduction point"
+  else
+    match get n.exits cid with
+    | some _ => intros ++ [(pk, cid, infoHash)]
+    | none => intros                                       -- KeyError, caught by the dispatcher
+
+/-- remove_exit_socket override: registrations of that socket go with it -/
+def dropIntros (intros : List (Nat × Nat × Nat)) (cid : Nat) : List (Nat × Nat × Nat) :=
+  intros.filter (fun r => r.2.1 != cid)
 
 /-! ### events of one node, as a single step function (used by the invariant theorems) -/
 inductive Ev (B : Type) where
